@@ -13,10 +13,10 @@ from fractions import Fraction as F
 from mc import domains as D
 from mc.engine import InputPart, Viol
 from mc.models import praatfmt
-from mc.props.common import IT, Textgrid, PE, call, scratch_dir
+from mc.props.common import IT, Textgrid, PE, call, scratch_dir, fresh
 from mc.props.c01 import teq
 
-FMTS = ("short_textgrid", "long_textgrid", "json", "textgrid_json")
+FMTS = fresh(("short_textgrid", "long_textgrid", "json", "textgrid_json"))
 OVERRIDES = ("none", "equal", "below", "above", "both", "inside-min", "inside-max", "just-below", "just-above", "lead-gap-mid", "lead-gap-end", "trail-gap-mid", "trail-gap-start")
 ORD = 0.25
 
@@ -63,6 +63,10 @@ def check(case):
     tier = IT("t", list(ents), lo, hi)
     tg = Textgrid()
     tg.addTier(tier)
+    # a point tier and a SECOND interval tier with the same content: every interval tier is treated alike
+    from mc.props.common import PT as _PT
+    tg.addTier(_PT("p", [(lo, "pt")], lo, hi))
+    tg.addTier(IT("t2", list(ents), lo, hi))
     T = F(thr) if thr is not None else None
     fn = os.path.join(scratch_dir(), "c04.TextGrid")
     viols = []
@@ -124,19 +128,24 @@ def check(case):
                 except praatfmt.FormatError as e:
                     viols.append(Viol("independent-reader-rejects", f"{cfg}: {e}"))
                     continue
-                W = [tuple(x) for x in d["tiers"][0]["entries"]]
                 if not (teq(fmin, d["xmin"]) and teq(fmax, d["xmax"])):
                     viols.append(Viol("file-span", f"{cfg}: file span ({d['xmin']!r},{d['xmax']!r}), requested ({fmin!r},{fmax!r})"))
                     continue
-                if not blanks:
-                    if len(W) != len(ents) or any(w[2] != e[2] or not teq(e[0], w[0]) or not teq(e[1], w[1]) for w, e in zip(W, ents)):
-                        viols.append(Viol("not-verbatim", f"{cfg}: entries {W} are not the in-memory entries {ents}"))
-                    oc.add("V")
+                if [t["name"] for t in d["tiers"]] != ["t", "p", "t2"]:
+                    viols.append(Viol("tiers", f"{cfg}: tiers {[t['name'] for t in d['tiers']]}"))
                     continue
-                msg = _judge(W, segs, lo, hi, fmin, fmax, T)
-                if msg:
-                    viols.append(Viol("absorption", f"{cfg}: {msg}\n   written {W}\n   segments {segs}"))
-                oc.add("P")
+                for ti in (0, 2):
+                    W = [tuple(x) for x in d["tiers"][ti]["entries"]]
+                    tname = d["tiers"][ti]["name"]
+                    if not blanks:
+                        if len(W) != len(ents) or any(w[2] != e[2] or not teq(e[0], w[0]) or not teq(e[1], w[1]) for w, e in zip(W, ents)):
+                            viols.append(Viol("not-verbatim", f"{cfg}: tier {tname}: entries {W} are not the in-memory entries {ents}"))
+                        oc.add("V")
+                        continue
+                    msg = _judge(W, segs, lo, hi, fmin, fmax, T)
+                    if msg:
+                        viols.append(Viol("absorption", f"{cfg}: tier {tname}: {msg}\n   written {W}\n   segments {segs}"))
+                    oc.add("P")
     ns = sum(1 for k in seq if k in "lg")
     return n, "".join(sorted(oc)), (seq, thr, tuple(sliver_class(s, e, T) for k, s, e, _ in segs if k in "lg")), viols
 
